@@ -367,7 +367,17 @@ class FnGen:
         if "comptime_int" in extra:
             self.cls["kc"] = "int"
         L = self.lines.append
-        L("    a0 = 3")
+        if self.chance(0.35):
+            # a (non-capturing) nested function inside a generic / comptime-parametrised parent: it is
+            # lowered once per monomorphisation of the parent
+            L("    def helper(h0: int) -> int:")
+            L("        if h0 > 2:")
+            L("            return h0 - 1")
+            L("        return h0 + 1")
+            L("    a0 = helper(3)")
+            self.kinds.append("nested-def")
+        else:
+            L("    a0 = 3")
         L("    z0 = 2.5")
         self.cls["a0"] = "int"
         self.cls["z0"] = "float"
@@ -398,12 +408,12 @@ class FnGen:
         return name, text, self.vars, extra
 
 
-CONCRETE = {"cd": ["int", "float", "tuple[int, bool]"], "d": ["array[int, 2]"], "l": ["qubit"]}
+CONCRETE = {"cd": ["int", "float", "tuple[int, bool]", "None"], "d": ["array[int, 2]"], "l": ["qubit"]}
 
 
 def mk_value(ty: str) -> str:
     return {"int": "7", "float": "1.5", "tuple[int, bool]": "(4, True)", "array[int, 2]": "array(1, 2)",
-            "qubit": "qubit()"}[ty]
+            "qubit": "qubit()", "None": "None"}[ty]
 
 
 def consume(ty: str, e: str, ind: str) -> list[str]:
@@ -448,6 +458,19 @@ def generate(rng: random.Random) -> tuple[str, str | None, list[str]]:
                 args.append(str(rng.randint(0, 5)))
             args += ["True", "False", "2"]
             ml.append(f"    out = {name}({', '.join(args)})")
+            if {"comptime_int", "comptime_nat"} & set(extra) and all(v.kind == "cd" for v in vs):
+                # a second monomorphisation of the same function (different comptime values)
+                args2 = list(args)
+                k_ = len(vs) + (1 if "arr_n" in extra else 0)
+                if "comptime_int" in extra:
+                    args2[k_] = str(int(args2[k_]) + 11)
+                    k_ += 1
+                if "comptime_nat" in extra:
+                    args2[k_] = str(int(args2[k_]) + 7)
+                if "arr_n" in extra:
+                    ml.append(f"    xs2 = array({', '.join(mk_value(conc['cd']) for _ in range(rng.randint(1, 3)))})")
+                    args2[len(vs)] = "xs2"
+                ml.append(f"    out2 = {name}({', '.join(args2)})")
             text.append("\n".join(ml) + "\n\n")
             names.append(f"main{i}")
     full = "".join(text)
